@@ -86,6 +86,16 @@ func genHistory(r *vlib.Rand, flag string, n int) hist {
 			line()
 		case x < 52:
 			h.ops = append(h.ops, progs.Op{K: "gc"})
+		case x < 60 && running && flag == "":
+			// Metric.ExpireDatum called on a metric of the running version (the vm's
+			// expire instruction; on a metric without keys only a direct call can do
+			// it): the mark has to survive reloads like any other
+			m := r.Intn(len(cur.Decls))
+			var ls []string
+			for range cur.Decls[m].Keys {
+				ls = append(ls, vlib.Pick(r, progs.Words))
+			}
+			h.ops = append(h.ops, progs.Op{K: "mark", Prog: "p.mtail", M: m, Labels: ls, Exp: vlib.Pick(r, []int64{1000000, 3600000000000, 3600000000000, 0})})
 		case x < 57 && running:
 			h.ops = append(h.ops, progs.Op{K: "unload", Prog: "p.mtail"})
 			running = false
@@ -226,6 +236,25 @@ func corpus() []hist {
 			q := p.Clone()
 			q.Trail = 1
 			add(ld(w, "p.mtail", q))
+			add(progs.Op{K: "gc"})
+			add(ln("a v"))
+		}),
+		// an expiry mark on a metric without keys (its datum is preallocated by the
+		// compiler in every new version) must survive a comment-only reload as well
+		mk("corpus:scalar-expiry", func(w *progs.World, add func(progs.Op)) {
+			p := &progs.Prog{Decls: []progs.Decl{{Kind: "counter", Name: "c"}, {Kind: "gauge", Name: "g", Keys: []string{"k"}}},
+				Rules: []progs.Rule{rule("a", progs.Stmt{Op: "inc", M: 0}, progs.Stmt{Op: "set", M: 1, Val: 1})}}
+			add(ld(w, "p.mtail", p))
+			add(ln("a u"))
+			add(progs.Op{K: "mark", Prog: "p.mtail", M: 0, Exp: 3600000000000})
+			add(progs.Op{K: "mark", Prog: "p.mtail", M: 1, Labels: []string{"u"}, Exp: 1000000})
+			q := p.Clone()
+			q.Trail = 1
+			add(ld(w, "p.mtail", q))
+			add(progs.Op{K: "mark", Prog: "p.mtail", M: 0, Exp: 1000000})
+			q2 := p.Clone()
+			q2.Trail = 2
+			add(ld(w, "p.mtail", q2))
 			add(progs.Op{K: "gc"})
 			add(ln("a v"))
 		}),
